@@ -31,7 +31,7 @@ META = {
 # Confirmed deviations of the code (DESIGN 2.9): TRUE = the impl-shaped layer behaves as lopdf does today.  When a fix is
 # applied to /repo, set its switch to False here and move the finding to "fixed" in known_findings/C05.json.
 # (C05_DEV="h12:0,h13:0" overrides for experiments against a scratch worktree.)
-DEV = {"h12": True, "h13": True, "t127": True, "mdict": True, "dparr": True}
+DEV = {"h12": False, "h13": True, "t127": True, "mdict": True, "dparr": True}
 DEV_TAG = {"h12": "owner.R234.key", "h13": "streamdict.string", "t127": "pw.gt127.R56", "mdict": "metadata.nonstream", "dparr": "crypt.dparray"}
 
 
